@@ -1,5 +1,6 @@
 import PV.Properties.C18
 import PV.Proofs.GATableLink
+import PV.Proofs.GATableRefl
 import PV.Generated.GATable
 /-
   C18 — T-gen tie of the geometric-algebra model to the source.
@@ -337,6 +338,31 @@ theorem add_sub_div_eq_table_current (ok : C18Ok Γ fuel) (x y : MVOf R) (hx : C
   exact ⟨tail_add Γ fuel 0 (by omega) x y hx.1 hy.1, tail_sub Γ fuel 0 (by omega) x y hx.1 hy.1,
     tail_truediv Γ fuel ok 0 (by omega) x y hx.2 hy⟩
 
+/-- **The reflected operators `* ^ | << >>` of the current source** (`__rmul__`, `__rxor__`,
+`__ror__`, `__rlshift__`, `__rrshift__` — what Python calls when the LEFT operand is a plain
+scalar `c` and the right one the multivector `x`): the scalar is wrapped as
+`MultiVector(c, self.space)` (`ofScalarZ`: `{}` for a zero, `{0: c}` otherwise) and handed to
+`_generic_product` as the LEFT factor with the class of the operator, so `c OP x` is the model's
+product of the grade-0 multivector and `x` IN THIS ORDER — a plain scalar on the left behaves like
+`MultiVector(c)` on the left.  (Aliasing the reflected methods to the forward ones changes these
+rows of the table: `table_current` and with it this theorem stop checking; the order matters
+for `<<` and `>>`, `scalar_contraction_order_matters`.) -/
+theorem reflected_products_eq_table_current (ok : C18Ok Γ fuel) (x : MVOf R) (c : R) :
+    c18Call gaTableCurrent Γ fuel "MultiVector.__rmul__" [.mv x, .coef c] []
+      = .ok (.mv (genericProductZ Γ.z (wGeometric Γ.g) (ofScalarZ Γ.z c) x)) ∧
+    c18Call gaTableCurrent Γ fuel "MultiVector.__rxor__" [.mv x, .coef c] []
+      = .ok (.mv (genericProductZ Γ.z (wOuter Γ.g) (ofScalarZ Γ.z c) x)) ∧
+    c18Call gaTableCurrent Γ fuel "MultiVector.__ror__" [.mv x, .coef c] []
+      = .ok (.mv (genericProductZ Γ.z (wInner Γ.g) (ofScalarZ Γ.z c) x)) ∧
+    c18Call gaTableCurrent Γ fuel "MultiVector.__rlshift__" [.mv x, .coef c] []
+      = .ok (.mv (genericProductZ Γ.z (wLeftContraction Γ.g) (ofScalarZ Γ.z c) x)) ∧
+    c18Call gaTableCurrent Γ fuel "MultiVector.__rrshift__" [.mv x, .coef c] []
+      = .ok (.mv (genericProductZ Γ.z (wRightContraction Γ.g) (ofScalarZ Γ.z c) x)) := by
+  rw [table_current, c18Call_eq_tail]
+  exact ⟨tail_rmul Γ fuel ok 0 (by omega) x c, tail_rxor Γ fuel ok 0 (by omega) x c,
+    tail_ror Γ fuel ok 0 (by omega) x c, tail_rlshift Γ fuel ok 0 (by omega) x c,
+    tail_rrshift Γ fuel ok 0 (by omega) x c⟩
+
 end Generic
 
 /-! ### the instance the property theorems are about: a commutative ring with decidable equality -/
@@ -403,7 +429,50 @@ theorem model_is_current_source (g : Nat → R) (names : List String) (fuel : Na
     have ha := add_sub_div_eq_table_current Γ fuel ok x y hx ⟨hy1, hy2⟩
     exact ⟨ha.1, ha.2.1⟩
 
+/-- **A plain scalar on either side of `* ^ | << >>` is the grade-0 multivector on that side**, in
+the current source, for every commutative ring with decidable equality: `c OP x` (reflected
+methods) is the model's product `OP (ofScalar c) x`, `x OP c` (forward methods, `_cast_or_ni`) is
+`OP x (ofScalar c)` — the products the grade-part theorems of PV/Properties/C18.lean
+(`outer_is_grade_part` … `rc_is_grade_part`) are about. -/
+theorem scalar_operand_is_current_source (g : Nat → R) (names : List String) (fuel : Nat)
+    (h2 : 2 ≤ fuel) (x : MVOf R) (c : R) (hx : ∀ k ∈ dkeys x, k < fuel) :
+    let Γ := ctxOfRing g names
+    (c18Call gaTableCurrent Γ fuel "MultiVector.__rmul__" [.mv x, .coef c] []
+        = .ok (.mv (mvMul g (ofScalar c) x)) ∧
+      c18Call gaTableCurrent Γ fuel "MultiVector.__rxor__" [.mv x, .coef c] []
+        = .ok (.mv (mvOuter g (ofScalar c) x)) ∧
+      c18Call gaTableCurrent Γ fuel "MultiVector.__ror__" [.mv x, .coef c] []
+        = .ok (.mv (mvInner g (ofScalar c) x)) ∧
+      c18Call gaTableCurrent Γ fuel "MultiVector.__rlshift__" [.mv x, .coef c] []
+        = .ok (.mv (mvLeftContraction g (ofScalar c) x)) ∧
+      c18Call gaTableCurrent Γ fuel "MultiVector.__rrshift__" [.mv x, .coef c] []
+        = .ok (.mv (mvRightContraction g (ofScalar c) x))) ∧
+    (c18Call gaTableCurrent Γ fuel "MultiVector.__mul__" [.mv x, .coef c] []
+        = .ok (.mv (mvMul g x (ofScalar c))) ∧
+      c18Call gaTableCurrent Γ fuel "MultiVector.__xor__" [.mv x, .coef c] []
+        = .ok (.mv (mvOuter g x (ofScalar c))) ∧
+      c18Call gaTableCurrent Γ fuel "MultiVector.__or__" [.mv x, .coef c] []
+        = .ok (.mv (mvInner g x (ofScalar c))) ∧
+      c18Call gaTableCurrent Γ fuel "MultiVector.__lshift__" [.mv x, .coef c] []
+        = .ok (.mv (mvLeftContraction g x (ofScalar c))) ∧
+      c18Call gaTableCurrent Γ fuel "MultiVector.__rshift__" [.mv x, .coef c] []
+        = .ok (.mv (mvRightContraction g x (ofScalar c)))) := by
+  intro Γ
+  have ok := ctxOfRing_ok g names fuel h2
+  exact ⟨reflected_products_eq_table_current Γ fuel ok x c,
+    products_eq_table_current Γ fuel ok x (.coef c) (ofScalar c) rfl hx⟩
+
 end Ring
+
+/-- **The order of the operands matters for the contractions even when one is a scalar**: with
+the Euclidean metric over the integers `3 << e0 = 3 e0` but `e0 << 3 = 0`, and `3 >> e0 = 0` but
+`e0 >> 3 = 3 e0` — "scalars commute with every multivector" holds for `* ^ |` only, so a reflected
+contraction may not be computed by the forward one with the operands swapped. -/
+theorem scalar_contraction_order_matters :
+    mvLeftContraction (fun _ => (1 : Int)) (ofScalar 3) [(1, 1)] = [(1, 3)] ∧
+    mvLeftContraction (fun _ => (1 : Int)) [(1, 1)] (ofScalar 3) = [] ∧
+    mvRightContraction (fun _ => (1 : Int)) (ofScalar 3) [(1, 1)] = [] ∧
+    mvRightContraction (fun _ => (1 : Int)) [(1, 1)] (ofScalar 3) = [(1, 3)] := by decide +kernel
 
 /-! ### non-vacuity: the hypotheses are satisfiable, the interpreter returns the values -/
 
@@ -429,6 +498,9 @@ theorem ctxInt_ok : C18Ok ctxInt 64 :=
 
 example := (products_eq_table_current ctxInt 64 ctxInt_ok [(1, 2), (6, -1)] (.coef 3) [(0, 3)] rfl
   (by decide)).1
+example := (reflected_products_eq_table_current ctxInt 64 ctxInt_ok [(1, 2), (6, -1)] 3).2.2.2.1
+example := ((scalar_operand_is_current_source (fun _ => (1 : Rat)) ["e0", "e1"] 16 (by decide)
+  [(1, 2), (2, 1 / 2)] 3 (by decide)).1).2.2.2.2
 example := inv_eq_table_current ctxInt 64 ctxInt_ok [(1, 2), (2, -1)] (by constructor <;> decide)
 example := (scalar_product_eq_table_current ctxInt 64 ctxInt_ok [(1, 2), (2, -1)] [(1, 5)]
   (by constructor <;> decide)).2.2.1
